@@ -31,7 +31,7 @@ def gen_prog(rng):
     n_roots = int(rng.integers(1, 4))
     for i in range(n_roots):
         units.append({"kind": "root", "name": f"r{i}", "m0": float(rng.integers(-50, 51)),
-                      "s0": float(rng.choice([10.0, 100.0, 1000.0])),
+                      "s0": float(rng.choice([10.0, 100.0, 1000.0])), "per_obs": bool(rng.random() < 0.7),
                       "shape": shape if rng.random() < 0.7 else []})
     n_more = int(rng.integers(1, 8))
     for _ in range(n_more):
@@ -49,7 +49,11 @@ def gen_prog(rng):
             units.append({"kind": "child", "name": f"c{ui}", "parent": p,
                           "a": float(rng.integers(-5, 6)), "b": float(rng.choice([-2, -1, 1, 2])),
                           "scale": float(rng.choice([1e-4, 1e-4, 1e-4, 5.0])),
-                          "shape": shape if rng.random() < 0.8 else []})
+                          "shape": shape if rng.random() < 0.8 else [],
+                          # how the distribution is wired: through a closure over one positional input, or a
+                          # TFP class with a cached location Calc passed positionally / by keyword
+                          "wiring": str(rng.choice(["closure", "loc_kw", "loc_pos", "loc_kw_scale_pos"])),
+                          "per_obs": bool(rng.random() < 0.7)})
         _ = drawn
     return {"shape": shape, "units": units}
 
@@ -78,10 +82,22 @@ def build(desc):
     for ui, u in enumerate(units):
         if u["kind"] == "root":
             d = lsl.Dist(tfd.Normal, loc=u["m0"], scale=u["s0"])
+            d.per_obs = u.get("per_obs", True)
             v = lsl.Var(jnp.zeros(tuple(u["shape"]), jnp.float32), d, name=u["name"])
             objs.append(v)
         elif u["kind"] == "child":
-            d = lsl.Dist(_child_dist(u["a"], u["b"], u["scale"]), objs[u["parent"]])
+            wiring = u.get("wiring", "closure")
+            if wiring == "closure":
+                d = lsl.Dist(_child_dist(u["a"], u["b"], u["scale"]), objs[u["parent"]])
+            else:
+                locn = lsl.Calc(_affine([u["a"], u["b"]]), objs[u["parent"]])
+                if wiring == "loc_kw":
+                    d = lsl.Dist(tfd.Normal, loc=locn, scale=u["scale"])
+                elif wiring == "loc_pos":
+                    d = lsl.Dist(tfd.Normal, locn, scale=u["scale"])
+                else:
+                    d = lsl.Dist(lambda scale, loc: tfd.Normal(loc=loc, scale=scale), u["scale"], loc=locn)
+            d.per_obs = u.get("per_obs", True)
             sh = unit_shape(units, ui)
             v = lsl.Var(jnp.zeros(sh, jnp.float32), d, name=u["name"])
             objs.append(v)
@@ -266,7 +282,9 @@ def run_case(case):
                     else:
                         pv = objs[u["parent"]].value
                         exp = tfd.Normal(u["a"] + u["b"] * pv, u["scale"]).log_prob(o.value)
-                    if not np.allclose(np.asarray(o.log_prob), np.asarray(exp), rtol=1e-5, atol=1e-4):
+                    if not u.get("per_obs", True):
+                        exp = np.sum(np.asarray(exp))
+                    if not np.allclose(np.asarray(o.log_prob), np.asarray(exp), rtol=1e-5, atol=1e-4 * max(1, np.size(o.value))):
                         res.violation("incoherent-after-update", f"log_prob of {u['name']} not recomputed from current values", w)
             _ = before_state
             prev = new
